@@ -29,10 +29,10 @@ import ir2c
 GUARD = 'LIBNOP_VERIF'
 CLANG = 'clang++-14'
 CLANG_FLAGS = ['-std=c++14', '-O1', '-fno-exceptions', '-fno-rtti', '-fno-vectorize', '-fno-slp-vectorize',
-               '-fno-unroll-loops', '-D' + GUARD, '-I' + os.path.join(REPO, 'include'), '-I' + RT, '-I' + HDIR,
+               '-fno-unroll-loops', '-fno-inline', '-D' + GUARD, '-I' + os.path.join(REPO, 'include'), '-I' + RT, '-I' + HDIR,
                '-S', '-emit-llvm', '-w']
 GXX_FLAGS = ['-std=c++14', '-D' + GUARD, '-I' + os.path.join(REPO, 'include'), '-I' + RT, '-I' + HDIR, '-w']
-CBMC_BASE = ['--unwinding-assertions', '--slice-formula', '--drop-unused-functions', '--pointer-overflow-check',
+CBMC_BASE = ['--object-bits', '12', '--unwinding-assertions', '--slice-formula', '--drop-unused-functions', '--pointer-overflow-check',
              '--undefined-shift-check', '--json-ui', '--verbosity', '4']
 JOBS = int(os.environ.get('VERIF_JOBS', '16'))
 _print_lock = threading.Lock()
@@ -164,6 +164,18 @@ class TU:
             raise Broken('goto-cc failed on %s:\n%s' % (c, (out + err)[-3000:]))
         self.stats['gotocc_s'] = round(time.time() - t0, 2)
         self.gb = gb; self.c = c; self.ll = ll
+        # loop inventory (names are <C function>.<n>; library functions keep their mangled names because the TU is lowered with -fno-inline)
+        self.loops = {}
+        rc, out, err, w, _ = run(['cbmc', gb, '--show-loops', '--json-ui'], timeout=600)
+        try:
+            for m in json.loads(out):
+                if isinstance(m, dict) and 'loops' in m:
+                    for l in m['loops']:
+                        self.loops.setdefault(l['sourceLocation'].get('function', l['name'].rsplit('.', 1)[0]), []).append(l['name'])
+        except Exception:
+            pass
+        fns = sorted(self.loops)
+        self.loop_dem = dict(zip(fns, demangle(fns)))
         return ('ok', '')
 
     def reachable(self, h):
@@ -175,6 +187,18 @@ class TU:
             seen.add(f)
             st.extend(cg.get(f, ()))
         return seen
+
+    def mem_loops(self, h):
+        """which translator copy loops (vrt_memcpy/memset/memmove) and libc-stub loops are reachable from h in the -O1 IR"""
+        cg = self.info['callgraph']; seen = set(); st = [h]; kinds = set(); ext = set()
+        while st:
+            f = st.pop()
+            if f in seen: continue
+            seen.add(f)
+            kinds |= set(self.info['fn_mem'].get(f, ()))
+            if f not in self.info['fn_mem']: ext.add(f)
+            st.extend(cg.get(f, ()))
+        return kinds, ext
 
     # ---- native builds (lazy, shared by diff + replay)
     def native(self, kind):
@@ -223,6 +247,29 @@ class Query:
         o = tu.opts(h)
         self.unwind = int(o.get('unwind', '12'))
         self.unwindset = o.get('unwindset', '')
+        # byte-copy loops get their own generous bound (they are straight copies whose length is bounded by object sizes)
+        mu = o.get('memunwind', '300')
+        kinds, ext = tu.mem_loops(h)
+        loops = []
+        if 'memcpy' in kinds: loops.append('vrt_memcpy.0:' + mu)
+        if 'memset' in kinds: loops.append('vrt_memset.0:' + mu)
+        if 'memmove' in kinds: loops += ['vrt_memmove.0:' + mu, 'vrt_memmove.1:' + mu]
+        for e in ('memcpy', 'memset', 'memcmp', 'bcmp'):
+            if e in ext: loops.append('X_%s.0:%s' % (e, mu))
+        if 'memmove' in ext: loops += ['X_memmove.0:' + mu, 'X_memmove.1:' + mu]
+        # per-loop bounds: option keys 'loop:<regex on demangled function name>=N' (later rules override earlier ones)
+        rules = [(k[5:], v) for k, v in o.items() if k.startswith('loop:')]
+        self.loop_bounds = {}
+        if rules:
+            reach = set(tu.mem_loops(h)[1]) | set(self._reach_o1(tu, h))
+            for fn, ids in tu.loops.items():
+                if fn not in reach: continue
+                dem = tu.loop_dem.get(fn, fn)
+                for rx, n in rules:
+                    if re.search(rx, dem):
+                        for lid in ids: self.loop_bounds[lid] = n
+        loops += ['%s:%s' % (k, v) for k, v in sorted(self.loop_bounds.items())]
+        self.unwindset = ','.join([x for x in [self.unwindset] if x] + loops)
         self.solver = o.get('solver', 'minisat')
         self.timeout = int(o.get('timeout_' + tier, o.get('timeout', '300' if tier == 'quick' else '1500')))
         self.mem = float(o.get('mem', '14'))
@@ -230,6 +277,15 @@ class Query:
         self.status = None; self.detail = ''; self.wall = 0.0; self.rss = 0.0
         self.n_props = 0; self.n_ok = 0; self.failed = []; self.witness_ok = False
         self.program_size = None
+
+    @staticmethod
+    def _reach_o1(tu, h):
+        cg = tu.info['callgraph']; seen = set(); st = [h]
+        while st:
+            f = st.pop()
+            if f in seen: continue
+            seen.add(f); st.extend(cg.get(f, ()))
+        return seen
 
     def cmd(self, trace_prop=None):
         c = ['cbmc', self.tu.gb, '--function', self.h, '--unwind', str(self.unwind)]
@@ -349,6 +405,8 @@ class Check:
 
     # ---- selection
     def want(self, h):
+        only = os.environ.get('VERIF_ONLY')
+        if only and not re.search(only, h): return False
         return h.startswith('hq_') or (self.tier == 'thorough' and h.startswith('ht_'))
 
     def add_tu(self, src, defs=(), tag=None):
@@ -532,8 +590,9 @@ class Check:
         for path, w in self.violations:
             log('VIOLATION property=%s replay=%s' % (self.prop, path))
             log('  harness=%s cbmc="%s" native_asserts=%s sanitizer=%s' % (w['harness'], w['cbmc'], w.get('native_failed_asserts'), w.get('sanitizer')))
-        for b in self.broken:
+        for b in self.broken[:12]:
             log('[%s] INCONCLUSIVE: %s' % (self.prop, b))
+        if len(self.broken) > 12: log('[%s] ... and %d more inconclusive items' % (self.prop, len(self.broken) - 12))
         ok = sum(1 for q in qs if q.status == 'ok')
         log('[%s] %d/%d queries ok, %d obligations discharged of %d, %d violations, %d known, wall %.1fs' % (
             self.prop, ok, len(qs), ev['coverage']['discharged'], ev['coverage']['obligations'], len(self.violations), len(seen), wall))
